@@ -1,5 +1,5 @@
 """Property -> rules registry.  Rules are added here as they are built; a property without rules is not claimed."""
-from .rules import determinism, panics, wiring
+from .rules import determinism, panics, wiring, traversal, annot, shape
 
 
 def _thorough_only(rule):
@@ -12,6 +12,33 @@ def _thorough_only(rule):
 
 
 PROPS = {
+    "C03": {
+        "rules": [traversal.rule_trav(["scc_core_lang::traits::substitution::Subst", "scc_core_lang::traits::substitution::SubstVar",
+                                   "scc_core_lang::traits::uniquify::Uniquify", "scc_core_lang::traits::focus::Focusing",
+                                   "scc_core_lang::traits::focus::Bind", "scc_core_lang::traits::typed_free_vars::TypedFreeVars"]), wiring.rule_wire_intra, shape.rule_shape],
+        "text": "Structural necessary conditions of focusing: every Subst/SubstVar/Uniquify/Focusing/Bind/TypedFreeVars impl of Core "
+                "visits every subterm (R-TRAV), uniquify dominates the focusing of definitions (R-WIRE), and only producer-only "
+                "shapes reach the `cannot happen` arms of Term<Cns> (R-SHAPE). Does not decide evaluation order or semantic equivalence.",
+        "assumptions": ["evaluation order produced by bind/bind_many and by-name vs once evaluation are properties of computed values, not decided"],
+    },
+    "C05": {
+        "rules": [traversal.rule_trav(["axcut::traits::free_vars::FreeVars", "axcut::traits::substitution::Subst",
+                                   "axcut::traits::typed_free_vars::TypedFreeVars", "axcut::traits::linearize::Linearizing"]), wiring.rule_wire_intra, annot.rule_annot_freevars, shape.rule_shape],
+        "text": "Structural necessary conditions of linearization: every FreeVars/Subst/TypedFreeVars/Linearizing impl of AxCut visits "
+                "every sub-statement (R-TRAV), free-variable annotation precedes linearization (R-WIRE) and is set on every path "
+                "(R-ANNOT), only Substitute reaches the panic of Statement::linearize (R-SHAPE).",
+        "assumptions": ["exactness of every environment on every path is value-level reasoning about lists, not decided"],
+    },
+    "C12": {
+        "rules": [panics.rule_panic(("B",)), annot.rule_annot_check, annot.rule_annot_freevars, shape.rule_shape,
+                  traversal.rule_trav(["fun::typing::check::Check"]), wiring.rule_wire_intra],
+        "text": "'No internal failure' clause: every panic-capable site reachable from the post-check stage entry points is audited, "
+                "and the annotation/shape classes are discharged by checked rules rather than trusted: Check sets every annotation on "
+                "every Ok path and visits every subterm (R-ANNOT, R-TRAV), free-variable and closure-environment annotations are set "
+                "before they are read (R-ANNOT, R-WIRE), no well-typed shape reaches a panicking wildcard (R-SHAPE).",
+        "assumptions": ["LOOKUP rows (well-scopedness) are the residual trusted base",
+                        "that each intermediate program type-checks in its own language is not decided"],
+    },
     "C01": {
         "rules": [wiring.rule_wire_chain, wiring.rule_wire_intra],
         "text": "Decides the structural clause 'obtained through the x86-64 path': the driver's stage chain parsed->checked->compiled->"
